@@ -109,8 +109,9 @@ def cnxn_packet(maxdata=4096, banner=b'device::\0'):
     return sim.frame(b'CNXN', sim.VERSION, maxdata, banner)
 
 
-def cuts(ctx, total, ncuts, label='cut'):
-    """all placements of `ncuts` strictly increasing cut positions in (0, total): finite choices"""
+def cuts(ctx, total, ncuts, label='cut', part=None):
+    """all placements of `ncuts` strictly increasing cut positions in (0, total): finite choices.
+    part=(i, n) restricts the first cut to positions congruent to i mod n (to spread one shape over several workers)."""
     pos = []
     prev = 0
     for i in range(ncuts):
@@ -118,7 +119,12 @@ def cuts(ctx, total, ncuts, label='cut'):
         hi = total - 1 - (ncuts - 1 - i)
         if hi < lo:
             break
-        c = lo + ctx.choose(hi - lo + 1, label)
+        cands = list(range(lo, hi + 1))
+        if i == 0 and part is not None:
+            cands = [c for c in cands if c % part[1] == part[0]]
+            if not cands:
+                raise core.PathAbort()
+        c = cands[ctx.choose(len(cands), label)]
         pos.append(c)
         prev = c
     return pos
